@@ -19,7 +19,7 @@ cell distinct), 'bits' = uniformly distributed finite bit patterns,
 therefore fixes every bit of the file."""
 import datetime
 import hashlib
-import struct
+
 from collections import OrderedDict
 
 import numpy as np
@@ -167,10 +167,11 @@ def _sizes(mx):
 @st.composite
 def camxspecs(draw, formats=ALL_FORMATS, max_n=5, max_nz=5, max_steps=4,
               max_spec=4, steps_min=1, step_choices=(1, 1, 1, 1, 2, 3, 6),
-              names=UAMIV_NAMES):
+              names=UAMIV_NAMES, weights=None):
     pool = []
     for f_ in formats:
-        pool += [f_] * FORMAT_WEIGHT.get(f_, 1)
+        pool += [f_] * (FORMAT_WEIGHT if weights is None
+                        else weights).get(f_, 1)
     fmt = draw(st.sampled_from(pool))
     s = OrderedDict(fmt=fmt)
     s['nx'] = draw(_sizes(max_n))
